@@ -9,7 +9,7 @@ import json
 import os
 import uuid
 
-from ..core import ROOT, Acc, HarnessError, Run, exc_name, violation
+from ..core import ROOT, Acc, HarnessError, Run, exc_name, pmap, violation
 from ..schema_walk import SchemaContractError, all_classes, disk_modules, wire_schema
 
 PIN_APIS = os.path.join(ROOT, "pins", "kafka-3.9.0-apis.json")
@@ -232,6 +232,81 @@ def value_inhabits(f, v, table):
         return False
 
 
+def strictly_inhabits(f, v, table):
+    """value_inhabits, and bool is not taken for an integer or float nor an integer for a bool"""
+    if v is not None and f.nested is None:
+        if (f.kafka_type == "bool") != (type(v) is bool):
+            return False
+    return value_inhabits(f, v, table)
+
+
+def _resolved_defaults_task(order_name):
+    """The defaults the LIBRARY resolves for tagged fields, observed through the derived reader: decode, for every
+    flexible class, the encoding that carries no tagged field at all; every tagged field of the result must hold a
+    value of its declared type, equal to the default E1 reads from the description.  Classes are visited in the
+    given order in a fresh process (a resolution that shares state between classes depends on the order)."""
+    import io
+
+    from kio.serial import entity_reader
+
+    from .. import bridge, refcodec, values
+
+    acc = Acc(max_samples=2)
+    table = type_table()
+    classes = all_classes()
+    if order_name == "reverse":
+        classes = list(reversed(classes))
+    n = 0
+    for api, ver, typ, mod, cls in classes:
+        path = f"{cls.__module__}:{cls.__qualname__}"
+        try:
+            ws = wire_schema(cls)
+        except SchemaContractError:
+            continue  # reported by the main pass
+        if not ws.flexible or not ws.tagged:
+            continue
+        n += 1
+        base = values.base_value(values.build(ws, "value", 8))
+        enc = bytes(refcodec.encode(ws, base, bridge.wire_default).buf)
+        o = (order_name, n)
+        case = {"class": path, "order": order_name, "encoding": enc.hex()[:200]}
+        try:
+            dec = entity_reader(cls)(io.BytesIO(enc))
+        except Exception as e:  # noqa: BLE001
+            acc.report(violation("C13", "resolved-default", f"C13/resolved-default/decode-without-tagged-fields-raised/{exc_name(e)}",
+                                 path, case, "decodes", repr(e)[:300], o))
+            continue
+        for f in ws.tagged:
+            acc.add("evaluations")
+            acc.add("resolved_defaults")
+            v = getattr(dec, f.name)
+            if f.array:
+                ok = (v is None and f.nullable) or (isinstance(v, tuple) and all(strictly_inhabits(f, x, table) for x in v))
+            else:
+                ok = strictly_inhabits(f, v, table)
+            if not ok:
+                acc.report(violation("C13", "resolved-default", f"C13/resolved-default/does-not-inhabit-type/{f.kafka_type or 'struct'}",
+                                     path, dict(case, field=f.name), repr(f.annotation), f"{v!r} ({type(v).__name__})"[:300], o))
+                continue
+            try:
+                if f.array:
+                    got = None if v is None else [bridge.from_entity(f.nested, x) if f.nested is not None else bridge.scalar_from_py(f, x) for x in v]
+                elif f.nested is not None:
+                    got = None if v is None else bridge.from_entity(f.nested, v)
+                else:
+                    got = bridge.scalar_from_py(f, v)
+                want = base[f.name]
+                same = bridge.same_wire(got, want, zero_sign=False)
+            except bridge.OutOfDomain as e:
+                got, want, same = str(e), base[f.name], False
+            if not same:
+                acc.report(violation("C13", "resolved-default", f"C13/resolved-default/differs-from-description/{f.kafka_type or 'struct'}",
+                                     path, dict(case, field=f.name), repr(want)[:300], repr(got)[:300], o))
+                continue
+            acc.outcome(f"resolved default inhabits type ({order_name} order)")
+    return acc.result()
+
+
 def run_c13(tier):
     from kio.serial import entity_reader, entity_writer
 
@@ -244,6 +319,9 @@ def run_c13(tier):
         _introspect, second_reading = None, False
     run = Run("C13", tier, "exploration")
     run.notes["second_reading_of_descriptions"] = "kio.serial._introspect" if second_reading else "unavailable (private helpers not found), sub-check skipped"
+    # before anything is derived in this process: the library's resolved tagged defaults, in two derivation orders
+    for res in pmap(_resolved_defaults_task, ["forward", "reverse"], procs=2):
+        run.merge(res)
     acc = Acc(max_samples=5)
     table = type_table()
     nfields = 0
@@ -358,7 +436,9 @@ def run_c13(tier):
                  "(Python base type, has wire null) matches the annotation; nullable only with a wire null (or tagged "
                  "with default None); tuple[T, ...] arrays only; defaults inhabit the declared type and are hashable; "
                  "tags unique, non-negative, only in flexible classes, default resolvable; E1's reading and kio's own "
-                 "introspection agree on (array, struct, tag, kafka type, optional); reader and writer derivable")
+                 "introspection agree on (array, struct, tag, kafka type, optional); reader and writer derivable; the default the "
+                 "derived reader fills in for every absent tagged field inhabits the declared type (bool is not an int) and "
+                 "equals the described default, classes visited forward and in reverse in fresh processes")
     c["exhaustive"] = True
     if nfields < 5000:
         raise HarnessError(f"only {nfields} fields found")
